@@ -190,6 +190,10 @@ func c04Run(s *c04Scn, segName string) verdict {
 			lateLine = lines[0]
 			pipe.Unlock()
 
+			// the way to the default level is walked with the generous timeout (the path is part of this operation's
+			// expectation either way); only the command itself meets the short one
+			_, _ = withWatchdog(20*time.Second, func() { _ = d.AcquirePriv(c04Name(s, s.Def)) })
+
 			d.Channel.TimeoutOps = 250 * time.Millisecond
 		case "configs-leave":
 			lines = []string{fmt.Sprintf("set a%d", j), fmt.Sprintf("leave %d", op.Target)}
